@@ -86,7 +86,7 @@ def auto_harness_text(u):
                 body.append('%s a%d;' % (t, k))
             args.append('a%d' % k)
         pre = u.get('auto_harness_pre', '')
-        lines.append('void h_%s%s(void) { %s %s %s(%s); FRGV_CANARY(); }' % (fn, case, pre, ' '.join(body), fn, ', '.join(args)))
+        lines.append('void h_%s%s(void) { %s %s __CPROVER_assert(0, "canary0: harness entry reachable"); %s(%s); FRGV_CANARY(); }' % (fn, case, pre, ' '.join(body), fn, ', '.join(args)))
     return '\n'.join(lines) + '\n'
 
 def unit_obligations(u, tier):
@@ -299,6 +299,7 @@ def run_obligation1(u, ob, bdir, trace=False):
         return res
     canary_seen = False
     canary_reached = False
+    entry_reached = False
     kinds = set()
     total = 0
     failed = []
@@ -306,6 +307,9 @@ def run_obligation1(u, ob, bdir, trace=False):
         desc = r.get('description', '')
         prop = r.get('property', '')
         st = r.get('status')
+        if desc.startswith('canary0'):
+            entry_reached = (st == 'FAILURE')
+            continue
         if desc.startswith(CANARY):
             canary_seen = True
             if st == 'FAILURE':
@@ -332,7 +336,16 @@ def run_obligation1(u, ob, bdir, trace=False):
     if not canary_seen:
         res['detail'] = 'harness has no reachability canary'
         return res
-    if not canary_reached:
+    if ob.get('expect_no_return'):
+        # the function must never return normally under this precondition (it stops in the assertion hook)
+        if not entry_reached:
+            res['detail'] = 'harness entry not reachable'
+            res['status'] = 'vacuous'
+            return res
+        if canary_reached:
+            failed.append({'property': 'no_return', 'description': 'function returns normally although the contract says it must stop in the assertion hook',
+                           'status': 'FAILURE', 'source': {}})
+    elif not canary_reached:
         res['detail'] = 'reachability canary did not fire: precondition or harness is vacuous'
         res['status'] = 'vacuous'
         return res
@@ -346,7 +359,7 @@ def run_obligation1(u, ob, bdir, trace=False):
             return res
     # unwinding assertion failures on a proof-class obligation are tool limits, not violations
     unw = [f for f in failed if 'unwinding assertion' in f['description'] or 'recursion unwinding' in f['description']]
-    if unw and not ob.get('unwind_is_property'):
+    if unw and len(unw) == len(failed) and not ob.get('unwind_is_property'):
         res['status'] = 'unwind'
         res['detail'] = 'unwinding assertion failed (bound %s too small): %s' % (ob.get('unwind'), unw[0]['description'])
         return res
